@@ -178,7 +178,7 @@ Proof.
   { intros [Ho|[Ho|[Ho Hm]]]; simpl; rewrite Ho; simpl; auto. apply no_vars_plain; assumption. }
   assert (Hlt : Nat.ltb (length pre1) (length pre) = true) by (subst pre; apply ltb_mid).
   assert (Hgt : Nat.ltb (length pre) (length pre1) = false).
-  { apply Nat.ltb_ge. apply Nat.ltb_lt in Hlt. lia. }
+  { clear - Hlt. apply Nat.ltb_ge. apply Nat.ltb_lt in Hlt. lia. }
   (* what the guard says when the earlier line is the flagged one *)
   assert (Hbwd : vd_flagged vd = length pre1 -> vd_because vd = length pre ->
                  eager_plain mid = true /\ eager_plain_line l = true).
